@@ -208,7 +208,7 @@ def c06(D, h, pairs=None):
     allp, gs = lineage_pairs(h)
     for a, d in (pairs if pairs is not None else allp):
         v = h.compare_genomes_vertically(gs[a], gs[d])
-        got = ob.hmapS(v.map).rsplit('|', 1)[0]
+        got = ob.vmapS(v).rsplit('|', 1)[0]
         want = tr.classify(roots, singles, a, d)
         if got != want:
             bad.append('classification %s>%s differs from the generating history: got %s want %s' % (taxS(a), taxS(d), got, want))
@@ -276,7 +276,7 @@ def c08(D, h, pairs=None):
             for g in (g1, g2):
                 if pathof(g.taxon) == anc:
                     continue
-                vm = h.compare_genomes_vertically(lm.ancestor, g).map
+                vm = ob._PubView(h.compare_genomes_vertically(lm.ancestor, g))
                 lost = sorted(nodekey(k) for k, v in lm.get_lost().items() if any(z is g for z in v))
                 gained = sorted(nodekey(k) for k in lm.get_gained().get(g, []))
                 ret = sorted((nodekey(k), nodekey(v[g])) for k, v in lm.get_retained().items() if g in v)
@@ -294,7 +294,7 @@ def c08(D, h, pairs=None):
         if res[0] != res[1]:
             bad.append('lateral comparison depends on argument order for %s,%s' % (taxS(x), taxS(y)))
         if on_lineage:
-            r1 = vres(h.compare_genomes_vertically(gx, gy).map); r2 = vres(h.compare_genomes_vertically(gy, gx).map)
+            r1 = ob.vmapS(h.compare_genomes_vertically(gx, gy)); r2 = ob.vmapS(h.compare_genomes_vertically(gy, gx))
             if r1 != r2:
                 bad.append('vertical comparison depends on argument order for %s,%s' % (taxS(x), taxS(y)))
         else:
